@@ -839,4 +839,427 @@ theorem hs6 (tl : Bool) : Hs (proto6 tl) late where
   call := fun now draws c cl r hr => hs_call6 now draws c cl r hr
   recv := fun now draws c p alt r hr => hs_recv6 now draws c p alt r hr
 
+/-! ## the token hint always matches (the totalised branch of `wireRead` is dead) -/
+
+/-- the token of a pending / online connection is present iff the variant uses tokens -/
+def tokS (tl : Bool) (c : Conn) : Prop := ∀ t, c.state.token? = some t → t.isSome = !tl
+
+/-- with tokens, every connected datagram other than a close message carries one -/
+def pktOk (tl : Bool) : Packet → Prop
+  | .connless _ => True
+  | .control _ _ (.close _) => True
+  | .control _ t _ => tl = false → t.isSome = true
+  | .chunks _ t _ _ _ => tl = false → t.isSome = true
+
+/-- what the reader hands to `feed`: the token is present iff the variant uses tokens -/
+def qOk (tl : Bool) : Packet → Prop
+  | .connless _ => True
+  | .control _ _ (.close _) => True
+  | .control _ t _ => t.isSome = !tl
+  | .chunks _ t _ _ _ => t.isSome = !tl
+
+theorem pktOk_control {ack : Nat} {t : Option Nat} {ctl : Control} (h : tl = false → t.isSome = true) :
+    pktOk tl (.control ack t ctl) := by
+  cases ctl <;> first | exact h | trivial
+
+theorem sendControl_tok {st : State} {snd : Timeout} {ctl : Control} {ps : List Packet}
+    (h : sendControl st ctl = .ok ps) (hs : tokS tl ⟨st, snd⟩) (hu : st = .unconnected → ∃ r, ctl = .close r) :
+    ∀ p ∈ ps, pktOk tl p := by
+  unfold sendControl at h
+  cases st <;> simp only [controlPacket] at h
+  case disconnected => cases h
+  case unconnected =>
+    obtain ⟨r, rfl⟩ := hu rfl
+    have := emit_ok h; subst this
+    intro p hp; simp at hp; subst hp; trivial
+  case connecting =>
+    have := emit_ok h; subst this
+    intro p hp; simp at hp; subst hp; exact pktOk_control (fun _ => rfl)
+  case pending t =>
+    have := emit_ok h; subst this
+    intro p hp; simp at hp; subst hp
+    exact pktOk_control (fun htl => by have := hs t rfl; simpa [htl] using this)
+  case online t o =>
+    have := emit_ok h; subst this
+    intro p hp; simp at hp; subst hp
+    exact pktOk_control (fun htl => by have := hs t rfl; simpa [htl] using this)
+
+theorem flushed_tok {t : Option Nat} (ht : tl = false → t.isSome = true) {fl : List Flushed} {ps : List Packet}
+    (hem : emit (fl.map (ofFlushed t)) = .ok ps) : ∀ p ∈ ps, pktOk tl p := by
+  have := emit_ok hem; subst this
+  intro p hp
+  simp only [List.mem_map] at hp
+  obtain ⟨f, _, rfl⟩ := hp
+  exact ht
+
+theorem tokS_online {t : Option Nat} {o : Online} {snd : Timeout} (hs : tokS tl ⟨.online t o, snd⟩) :
+    tl = false → t.isSome = true := fun htl => by have := hs t rfl; simpa [htl] using this
+
+theorem tickAction_tok {env : Env} {c c' : Conn} {out : Out} (ht : tickAction env c = .ok (c', out))
+    (hs : tokS tl c) : tokS tl c' ∧ ∀ p ∈ out.sent, pktOk tl p := by
+  obtain ⟨st, snd⟩ := c
+  cases st <;> simp only [tickAction] at ht
+  case unconnected => injection ht with ht; injection ht with h1 h2; subst h1 h2; exact ⟨hs, by simp⟩
+  case disconnected => injection ht with ht; injection ht with h1 h2; subst h1 h2; exact ⟨hs, by simp⟩
+  case connecting =>
+    split at ht
+    · cases ht
+    · rename_i ps hsc
+      injection ht with ht; injection ht with h1 h2; subst h1 h2
+      exact ⟨hs, sendControl_tok hsc hs (by simp)⟩
+  case pending t =>
+    split at ht
+    · cases ht
+    · rename_i ps hsc
+      injection ht with ht; injection ht with h1 h2; subst h1 h2
+      exact ⟨hs, sendControl_tok hsc hs (by simp)⟩
+  case online t o =>
+    split at ht
+    · split at ht
+      · cases ht
+      · rename_i ps hem
+        injection ht with ht; injection ht with h1 h2; subst h1 h2
+        exact ⟨fun t' ht' => hs t' ht', flushed_tok (tokS_online hs) hem⟩
+    · split at ht
+      · cases ht
+      · rename_i ps hsc
+        injection ht with ht; injection ht with h1 h2; subst h1 h2
+        exact ⟨hs, sendControl_tok hsc hs (by simp)⟩
+
+theorem tok_call6 (now : Nat) (draws : List Nat) (c : Conn) (cl : Call) (r : Ret Conn Packet)
+    (hr : P6.call now draws c cl = .ok r) (hs : tokS tl c) : tokS tl r.conn ∧ ∀ p ∈ r.sent, pktOk tl p := by
+  obtain ⟨st, snd⟩ := c
+  cases cl with
+  | connect =>
+    simp only [P6.call] at hr
+    split at hr
+    · cases hr
+    · rename_i c1 out hcon
+      injection hr with hr; subst hr
+      unfold connect at hcon
+      cases st with
+      | unconnected =>
+        simp only at hcon
+        exact tickAction_tok hcon (fun t ht => by simp [State.token?] at ht)
+      | _ => simp at hcon
+  | send d v =>
+    simp only [P6.call] at hr
+    split at hr
+    · cases hr
+    · rename_i c1 res out hsend
+      injection hr with hr; subst hr
+      unfold Conn6.send at hsend
+      cases st with
+      | online t o =>
+        simp only at hsend
+        split at hsend
+        · cases hsend
+        · split at hsend
+          · cases hsend
+          · rename_i ps hem
+            injection hsend with hsend; injection hsend with e1 e2; injection e2 with e2 e3
+            subst e1 e2 e3
+            exact ⟨fun t' ht' => hs t' ht', flushed_tok (tokS_online hs) hem⟩
+      | _ => simp at hsend
+  | sendConnless d =>
+    simp only [P6.call] at hr
+    split at hr
+    · cases hr
+    · rename_i c1 res out hsend
+      injection hr with hr; subst hr
+      unfold Conn6.sendConnless at hsend
+      cases st with
+      | online t o =>
+        simp only at hsend
+        split at hsend
+        · injection hsend with hsend; injection hsend with e1 e2; injection e2 with e2 e3
+          subst e1 e2 e3
+          exact ⟨fun t' ht' => hs t' ht', by simp⟩
+        · split at hsend
+          · cases hsend
+          · rename_i ps hem
+            injection hsend with hsend; injection hsend with e1 e2; injection e2 with e2 e3
+            subst e1 e2 e3
+            have := emit_ok hem; subst this
+            exact ⟨fun t' ht' => hs t' ht', by intro p hp; simp at hp; subst hp; trivial⟩
+      | _ => simp at hsend
+  | flush =>
+    simp only [P6.call] at hr
+    split at hr
+    · cases hr
+    · rename_i c1 out hfl
+      injection hr with hr; subst hr
+      unfold Conn6.flush at hfl
+      cases st with
+      | online t o =>
+        simp only at hfl
+        split at hfl
+        · cases hfl
+        · rename_i ps hem
+          injection hfl with hfl; injection hfl with e1 e2; subst e1 e2
+          exact ⟨fun t' ht' => hs t' ht', flushed_tok (tokS_online hs) hem⟩
+      | _ => simp at hfl
+  | tick =>
+    simp only [P6.call] at hr
+    split at hr
+    · cases hr
+    · rename_i c1 out htick
+      injection hr with hr; subst hr
+      unfold Conn6.tick at htick
+      have hidle : ∀ {snd' : Timeout}, tickAction ⟨now, draws⟩ ⟨st, snd'⟩ = .ok (c1, out) →
+          tokS tl c1 ∧ ∀ p ∈ out.sent, pktOk tl p :=
+        fun ht => tickAction_tok ht (fun t ht' => hs t ht')
+      cases st with
+      | online t o =>
+        simp only at htick
+        split at htick
+        · unfold resendConn at htick
+          split at htick
+          · cases htick
+          · split at htick
+            · cases htick
+            · rename_i ps hem
+              injection htick with htick; injection htick with e1 e2; subst e1 e2
+              exact ⟨fun t' ht' => hs t' ht', flushed_tok (tokS_online hs) hem⟩
+        · split at htick
+          · exact hidle htick
+          · injection htick with htick; injection htick with e1 e2; subst e1 e2
+            exact ⟨hs, by simp⟩
+      | _ =>
+        simp only [Bool.false_eq_true, if_false] at htick
+        split at htick
+        · exact hidle htick
+        · injection htick with htick; injection htick with e1 e2; subst e1 e2
+          exact ⟨hs, by simp⟩
+  | disconnect reason =>
+    simp only [P6.call] at hr
+    split at hr
+    · cases hr
+    · rename_i c1 out hdis
+      injection hr with hr; subst hr
+      unfold Conn6.disconnect at hdis
+      split at hdis
+      · cases hdis
+      · split at hdis
+        · cases hdis
+        · split at hdis
+          · cases hdis
+          · rename_i ps hsc
+            injection hdis with hdis; injection hdis with e1 e2; subst e1 e2
+            exact ⟨fun t ht => by simp [State.token?] at ht, sendControl_tok hsc hs (fun _ => ⟨_, rfl⟩)⟩
+
+theorem wireRead_qOk {p q : Packet} {alt : Alt} {hint : Option Bool} (hp : pktOk tl p)
+    (h : wireRead tl p alt hint = some q) : qOk tl q := by
+  unfold wireRead at h
+  simp only at h
+  have hs : qOk tl (if tl = true then strip p else p) := by
+    cases tl with
+    | true =>
+      simp only [if_true]
+      cases p with
+      | connless d => trivial
+      | control a t c => cases c <;> simp [strip, qOk]
+      | chunks a t rr n cs => simp [strip, qOk]
+    | false =>
+      simp only [Bool.false_eq_true, if_false]
+      cases p with
+      | connless d => trivial
+      | control a t c => cases c <;> simp_all [pktOk, qOk]
+      | chunks a t rr n cs => simp_all [pktOk, qOk]
+  generalize (if tl = true then strip p else p) = p' at h hs
+  cases p' with
+  | connless d => simp only at h; injection h with h; rw [← h]; trivial
+  | chunks ack tk rr n cs =>
+    simp only at h
+    split at h
+    · injection h with h; rw [← h]; exact hs
+    · cases h
+  | control ack tk ctl =>
+    cases ctl with
+    | close r =>
+      simp only at h
+      split at h
+      · injection h with h; rw [← h]; trivial
+      · cases alt with
+        | exact => simp only at h; injection h with h; rw [← h]; trivial
+        | error => cases h
+        | close tok' r' => simp only at h; injection h with h; rw [← h]; trivial
+    | keepAlive => simp only at h; split at h; (injection h with h; rw [← h]; exact hs); cases h
+    | connect => simp only at h; split at h; (injection h with h; rw [← h]; exact hs); cases h
+    | connectAccept => simp only at h; split at h; (injection h with h; rw [← h]; exact hs); cases h
+    | accept => simp only at h; split at h; (injection h with h; rw [← h]; exact hs); cases h
+
+theorem feedBody_tok {env : Env} {c c1 : Conn} {token : Option Nat} {q : Packet} {out : Out}
+    (hs : tokS tl c) (hq : qOk tl q) (htok : ∀ ack t ctl, q = .control ack t ctl → token = t)
+    (hf : feedBody env c token q = .ok (c1, out)) : tokS tl c1 ∧ ∀ p ∈ out.sent, pktOk tl p := by
+  obtain ⟨st, snd⟩ := c
+  have hnoop : ∀ (evs : List Event), feedBody env ⟨st, snd⟩ token q = .ok (⟨st, snd⟩, { events := evs }) →
+      tokS tl c1 ∧ ∀ p ∈ out.sent, pktOk tl p := by
+    intro evs hk
+    rw [hk] at hf
+    injection hf with hf; injection hf with e1 e2; subst e1 e2
+    exact ⟨hs, by simp⟩
+  cases q with
+  | connless d => exact hnoop [.connless d] (by simp [feedBody])
+  | chunks ack tk rr n cs =>
+    have hrecv : ∀ (t : Option Nat) (o : Online), (tl = false → t.isSome = true) → t.isSome = !tl →
+        (match o.receive Conn6.cfg env.now snd rr cs with
+          | .error e => .error e
+          | .ok (o1, send1, fl, evs) =>
+            match emit (fl.map (ofFlushed t)) with
+            | .error e => .error e
+            | .ok ps => .ok (⟨.online t o1, send1⟩, { sent := ps, events := evs })) = Except.ok (c1, out) →
+        tokS tl c1 ∧ ∀ p ∈ out.sent, pktOk tl p := by
+      intro t o ht ht' hk
+      split at hk
+      · cases hk
+      · split at hk
+        · cases hk
+        · rename_i ps hem
+          injection hk with hk; injection hk with e1 e2; subst e1 e2
+          refine ⟨?_, flushed_tok ht hem⟩
+          intro t' h'
+          simp [State.token?] at h'
+          subst h'; exact ht'
+    cases st with
+    | online t o => simp only [feedBody] at hf; exact hrecv t o (tokS_online hs) (hs t rfl) hf
+    | pending t =>
+      simp only [feedBody] at hf
+      exact hrecv t .new (fun htl => by have := hs t rfl; simpa [htl] using this) (hs t rfl) hf
+    | unconnected => exact hnoop [] (by simp [feedBody])
+    | connecting => exact hnoop [] (by simp [feedBody])
+    | disconnected => exact hnoop [] (by simp [feedBody])
+  | control ack tk ctl =>
+    have htk := htok ack tk ctl rfl
+    subst htk
+    cases ctl with
+    | keepAlive => exact hnoop [] (by simp [feedBody])
+    | accept => exact hnoop [] (by simp [feedBody])
+    | close reason =>
+      simp only [feedBody] at hf
+      injection hf with hf; injection hf with e1 e2; subst e1 e2
+      exact ⟨fun t ht => by simp [State.token?] at ht, by simp⟩
+    | connect =>
+      have hq' : token.isSome = !tl := hq
+      cases st with
+      | unconnected =>
+        simp only [feedBody] at hf
+        cases token with
+        | none =>
+          simp only at hf
+          refine tickAction_tok hf ?_
+          intro t ht
+          simp [State.token?] at ht
+          subst ht; exact hq'
+        | some t0 =>
+          simp only at hf
+          split at hf
+          · split at hf
+            · cases hf
+            · refine tickAction_tok hf ?_
+              intro t ht
+              simp [State.token?] at ht
+              subst ht; exact hq'
+          · injection hf with hf; injection hf with e1 e2; subst e1 e2
+            exact ⟨hs, by simp⟩
+      | online t o => exact hnoop [] (by simp [feedBody])
+      | pending t => exact hnoop [] (by simp [feedBody])
+      | connecting => exact hnoop [] (by simp [feedBody])
+      | disconnected => exact hnoop [] (by simp [feedBody])
+    | connectAccept =>
+      have hq' : token.isSome = !tl := hq
+      cases st with
+      | connecting =>
+        simp only [feedBody] at hf
+        split at hf
+        · cases hf
+        · rename_i ps hsc
+          injection hf with hf; injection hf with e1 e2; subst e1 e2
+          have hs' : tokS tl ⟨.online token .new, snd⟩ := by
+            intro t ht
+            simp [State.token?] at ht
+            subst ht; exact hq'
+          exact ⟨hs', sendControl_tok hsc hs' (by simp)⟩
+      | online t o => exact hnoop [] (by simp [feedBody])
+      | pending t => exact hnoop [] (by simp [feedBody])
+      | unconnected => exact hnoop [] (by simp [feedBody])
+      | disconnected => exact hnoop [] (by simp [feedBody])
+
+theorem tok_recv6 (now : Nat) (draws : List Nat) (c : Conn) (p : Packet) (alt : Alt) (r : Ret Conn Packet)
+    (hr : P6.recv tl now draws c p alt = .ok r) (hs : tokS tl c) (hp : pktOk tl p) :
+    tokS tl r.conn ∧ ∀ p' ∈ r.sent, pktOk tl p' := by
+  unfold P6.recv at hr
+  split at hr
+  · cases hr
+  · rename_i c1 out hf
+    injection hr with hr; subst hr
+    simp only
+    have hquiet : ∀ (o : Out), o.sent = [] → (Except.ok (c, o) : Res) = Except.ok (c1, out) →
+        tokS tl c1 ∧ ∀ p' ∈ out.sent, pktOk tl p' := by
+      intro o ho hk
+      injection hk with hk; injection hk with e1 e2; subst e1 e2
+      exact ⟨hs, by simp [ho]⟩
+    unfold feed at hf
+    cases hq : wireRead tl p alt c.hint with
+    | none => simp only [hq] at hf; exact hquiet _ rfl hf
+    | some q =>
+      have hqok := wireRead_qOk hp hq
+      simp only [hq] at hf
+      cases hta : q.tokenAck? with
+      | none =>
+        simp only [hta] at hf
+        refine feedBody_tok hs hqok ?_ hf
+        intro ack t ctl hqq; subst hqq; simp [Packet.tokenAck?] at hta
+      | some ta =>
+        obtain ⟨token, ack⟩ := ta
+        simp only [hta] at hf
+        have htok : ∀ ack' t ctl, q = .control ack' t ctl → token = t := by
+          intro ack' t ctl hqq; subst hqq; simp [Packet.tokenAck?] at hta; exact hta.1.symm
+        split at hf
+        · exact hquiet _ rfl hf
+        · cases hst : c.state with
+          | online t o =>
+            simp only [hst] at hf
+            split at hf
+            · cases hf
+            · refine feedBody_tok ?_ hqok htok hf
+              intro t' ht'
+              simp [State.token?] at ht'
+              subst ht'
+              exact hs t (by simp [hst, State.token?])
+          | unconnected => simp only [hst] at hf; exact feedBody_tok hs hqok htok hf
+          | connecting => simp only [hst] at hf; exact feedBody_tok hs hqok htok hf
+          | pending t => simp only [hst] at hf; exact feedBody_tok hs hqok htok hf
+          | disconnected => simp only [hst] at hf; exact feedBody_tok hs hqok htok hf
+
+theorem loc6 (tl : Bool) : Loc (proto6 tl) (tokS tl) (pktOk tl) where
+  init := fun t ht => by simp [proto6, Conn.new, State.token?] at ht
+  call := fun now draws c cl r hr hs => tok_call6 now draws c cl r hr hs
+  recv := fun now draws c p alt r hr hs hp => tok_recv6 now draws c p alt r hr hs hp
+
+/-- the hint of a connection that satisfies `tokS` never contradicts a datagram that satisfies `pktOk` -/
+theorem misread_false {c : Conn} {p : Packet} (hs : tokS tl c) (hp : pktOk tl p) : misread tl p c.hint = false := by
+  unfold misread
+  simp only
+  have hh : c.hint = none ∨ c.hint = some (!tl) := by
+    unfold Conn.hint
+    cases ht : c.state.token? with
+    | none => left; rfl
+    | some t => right; simp [hs t ht]
+  cases tl with
+  | true =>
+    simp only [if_true]
+    cases p with
+    | connless d => rfl
+    | control a t ctl =>
+      cases ctl <;> simp only [strip] <;> first | rfl | (rcases hh with hh | hh <;> simp [hh, hasToken])
+    | chunks a t rr n cs => simp only [strip]; rcases hh with hh | hh <;> simp [hh, hasToken]
+  | false =>
+    simp only [Bool.false_eq_true, if_false]
+    cases p with
+    | connless d => rfl
+    | control a t ctl =>
+      cases ctl <;> first | rfl | (have := hp rfl; rcases hh with hh | hh <;> simp [hh, hasToken, this])
+    | chunks a t rr n cs => have := hp rfl; rcases hh with hh | hh <;> simp [hh, hasToken, this]
+
 end Tw.NetSim.P6
